@@ -19,12 +19,12 @@ ASSUMPTIONS = [
     'broker stub: get_portfolio_total_equity returns the symbolic equity; data handler stub returns the symbolic ask',
 ]
 DEADLINE = {'quick': 900, 'thorough': 3000}
-NAMES = ['EQ:A', 'EQ:B', 'EQ:C', 'EQ:D']
+NAMES = ['EQ:A', 'EQ:B', 'EQ:C', 'EQ:D', 'EQ:E']
 
 
 def configs(tier):
     out = []
-    ns = [1, 2] if tier == 'quick' else [1, 2, 3]
+    ns = [1, 2] if tier == 'quick' else [1, 2, 3, 4]
     for n in ns:
         out.append(dict(name='lo_N%d_percentfee' % n, n=n, fee='percent', nan=[], weight=n * n,
                         bound='N=%d assets, all of weights/prices/equity/buffer/fee rates symbolic reals' % n,
